@@ -50,45 +50,32 @@ theorem findIdx'_none {α : Type} (p : α → Bool) (l : List α) (i : Nat) (h :
       · simpa using hp
       · exact ih (i + 1) h x hx'
 
-/-- `start` claims the **first** prepared entry whose system matches (whatever command prepared it). -/
-theorem TrkData.start_claims_first (t : TrkData) (sys : Nat) (pre : List (Nat × Nat)) (d : Nat) (post : List (Nat × Nat))
-    (hp : t.prepared = pre ++ (sys, d) :: post) (hpre : ∀ x ∈ pre, x.1 ≠ sys) :
-    (t.start sys).reacting = true ∧ (t.start sys).cur = d := by
-  have hfind : findIdx' (fun p => p.1 == sys) t.prepared 0 = some pre.length := by
-    rw [hp]
-    clear hp
-    have : ∀ (i : Nat), findIdx' (fun p : Nat × Nat => p.1 == sys) (pre ++ (sys, d) :: post) i = some (i + pre.length) := by
-      induction pre with
-      | nil => intro i; simp [findIdx']
-      | cons a pre ih =>
-        intro i
-        have ha : (a.1 == sys) = false := by simpa using hpre a (by simp)
-        simp only [List.cons_append, findIdx', ha]
-        rw [ih (fun x hx => hpre x (by simp [hx])) (i + 1)]
-        simp; omega
-    simpa using this 0
-  unfold TrkData.start
-  rw [hfind]
-  have hget : t.prepared[pre.length]? = some (sys, d) := by rw [hp]; simp
-  simp [hget]
+/-- `start` claims **its own** prepared entry (the one the command's ticket identifies), whatever else is pending for the
+    same system. -/
+theorem TrkData.start_claims_own (t : TrkData) (sys d : Nat) (h : (sys, d) ∈ t.prepared) :
+    (t.start sys d).reacting = true ∧ (t.start sys d).cur = d ∧ (t.start sys d).prepared = t.prepared.erase (sys, d) := by
+  simp [TrkData.start, h]
 
-/-- If no entry is prepared for the system, `start` changes nothing (the run reads nothing). -/
-theorem TrkData.start_none (t : TrkData) (sys : Nat) (h : ∀ x ∈ t.prepared, x.1 ≠ sys) : t.start sys = t := by
-  have : findIdx' (fun p => p.1 == sys) t.prepared 0 = none := by
-    cases hf : findIdx' (fun p => p.1 == sys) t.prepared 0 with
-    | none => rfl
-    | some j =>
-      obtain ⟨x, hx, hpx, _⟩ := findIdx'_spec _ _ _ _ hf
-      have hmem : x ∈ t.prepared := List.mem_of_getElem? hx
-      have := h x hmem
-      simp at hpx; exact absurd hpx this
-  simp [TrkData.start, this]
+/-- If the command's entry is not there, `start` changes nothing (the run reads nothing). -/
+theorem TrkData.start_none (t : TrkData) (sys d : Nat) (h : (sys, d) ∉ t.prepared) : t.start sys d = t := by
+  simp [TrkData.start, h]
 
-/-- **Exact claim under a single pending entry**: if exactly one entry is prepared for the system, `start` claims it —
-    so a command whose system has no other event pending in the tracker reads its own metadata. -/
-theorem TrkData.start_exact_of_single (t : TrkData) (sys d : Nat) (pre post : List (Nat × Nat))
-    (hp : t.prepared = pre ++ (sys, d) :: post) (hpre : ∀ x ∈ pre, x.1 ≠ sys) (_hpost : ∀ x ∈ post, x.1 ≠ sys) :
-    (t.start sys).cur = d :=
-  (TrkData.start_claims_first t sys pre d post hp hpre).2
+theorem TrkEnt.start_claims_own (t : TrkEnt) (sys src : Nat) (rt : RType) (h : (sys, src, rt) ∈ t.prepared) :
+    (t.start sys src rt).reacting = true ∧ (t.start sys src rt).curSys = sys ∧ (t.start sys src rt).curSrc = src ∧
+      (t.start sys src rt).curRt = rt ∧ (t.start sys src rt).prepared = t.prepared.erase (sys, src, rt) := by
+  simp [TrkEnt.start, h]
+
+theorem TrkEnt.start_none (t : TrkEnt) (sys src : Nat) (rt : RType) (h : (sys, src, rt) ∉ t.prepared) :
+    t.start sys src rt = t := by
+  simp [TrkEnt.start, h]
+
+theorem TrkDsp.start_claims_own (t : TrkDsp) (sys src : Nat) (hd : Handle) (h : (sys, src, hd) ∈ t.prepared) :
+    (t.start sys src hd).1.reacting = true ∧ (t.start sys src hd).1.curSrc = src ∧ (t.start sys src hd).1.curHandle = some hd ∧
+      (t.start sys src hd).1.prepared = t.prepared.erase (sys, src, hd) ∧ (t.start sys src hd).2 = t.curHandle := by
+  simp [TrkDsp.start, h]
+
+theorem TrkDsp.start_none (t : TrkDsp) (sys src : Nat) (hd : Handle) (h : (sys, src, hd) ∉ t.prepared) :
+    t.start sys src hd = (t, none) := by
+  simp [TrkDsp.start, h]
 
 end Cobweb
